@@ -236,10 +236,12 @@ def evalSrc (cfg : Cfg) (s : State) : Src → Value
   | .name n => evalTarget cfg s n
   | .val v => s.vals v
 
-/-- what a read of the value's elements sees: `none` = the read goes through a freed entry -/
+/-- the elements `x[1] .. x[x.size]` a script loop over the value sees: `none` = the read goes
+    through a freed entry -/
 def Value.elems (s : State) : Value → Option (List WeakRef)
   | .nil => some []
-  | .obj r => some [r]
+  | .obj none => some []          -- size 0
+  | .obj (some o) => some [some o]
   | .cont l => s.lists l
   | .arr rs => some rs
 
@@ -294,11 +296,11 @@ def typeName : Value → String
   | .cont _ => "array"
   | .arr _ => "array"
 
-/-- `println ("e " + x.id)` for a listener value `x` -/
+/-- `if (x) println (tag + " " + x.id) else println (tag + " 0")` for a listener value `x` -/
 def sayId (s : State) (tag : String) (r : WeakRef) : State :=
   match r with
   | some o => say s s!"{tag} {o}"
-  | none => say (say s "!null") s!"{tag} NIL"      -- Field 'id' applied to NULL listener
+  | none => say s s!"{tag} 0"
 
 /-- `ScriptVariable::size()` as printed by `OP_UN_SIZE`; `none` = read through a freed entry -/
 def Value.size (s : State) : Value → Option Int
@@ -307,22 +309,18 @@ def Value.size (s : State) : Value → Option Int
   | .cont l => (s.lists l).map (fun rs => (rs.length : Int))
   | .arr rs => some rs.length
 
-/-- `evalArrayAt` followed by `.id`: token(s) printed by `println ("i " + src[i].id)` -/
+/-- `local.e = src[i]` (`OP_STORE_ARRAY`: `evalArrayAt`, the value is cleared on error) followed
+    by the guarded print of `local.e.id` -/
 def sayIndex (s : State) (a : Value) (i : Nat) : Res :=
+  let bad : Res := .ok (say (say s "!range") "i 0")
   match a with
-  | .nil => .ok (say (say s "!castnone") "i NIL")               -- NIL[i] is NIL; `.id` of NIL
-  | .obj r =>
-    if i = 1 then .ok (sayId s "i" r)
-    else .ok (say (say (say s "!range") "!castnone") "i NIL")
+  | .nil => .ok (say s "i 0")                                   -- NIL[i] is NIL
+  | .obj r => if i = 1 then .ok (sayId s "i" r) else bad        -- `index != 1`
   | .cont l =>
     match s.lists l with
     | none => .ub
-    | some rs =>
-      if i = 0 ∨ rs.length < i then .ok (say (say (say s "!range") "!castnone") "i NIL")
-      else .ok (sayId s "i" ((rs[i - 1]?).getD none))
-  | .arr rs =>
-    if i = 0 ∨ rs.length < i then .ok (say (say (say s "!range") "!castnone") "i NIL")
-    else .ok (sayId s "i" ((rs[i - 1]?).getD none))
+    | some rs => if i = 0 ∨ rs.length < i then bad else .ok (sayId s "i" ((rs[i - 1]?).getD none))
+  | .arr rs => if i = 0 ∨ rs.length < i then bad else .ok (sayId s "i" ((rs[i - 1]?).getD none))
 
 /-- one simple statement; `self` is the thread's `self` -/
 def act (cfg : Cfg) (self : Option ObjId) (s : State) : Act → Res
@@ -334,7 +332,7 @@ def act (cfg : Cfg) (self : Option ObjId) (s : State) : Act → Res
     .ok (say s2 s!"sp {o}")
   | .setName w n =>
     match resolve s self w with
-    | .nil => .ok (say s "!castnone")
+    | .nil => .ok (say s "!nil")
     | .null => .ok (say s "!null")
     | .live o => .ok (setTargetName s o n)
   | .delete w =>
@@ -342,15 +340,14 @@ def act (cfg : Cfg) (self : Option ObjId) (s : State) : Act → Res
     | .nil => .ok (say s "!nil")
     | .null => .ok (say s "!null")
     | .live o => .ok (destroy s o)
-  | .mark w =>
+  | .mark w =>            -- instrumentation, guarded by `if (w)`
     match resolve s self w with
-    | .nil => .ok (say s "!castnone")
-    | .null => .ok (say s "!null")
     | .live o => .ok { s with cnt := upd s.cnt o (s.cnt o + 1) }
-  | .hello =>
+    | _ => .ok (say s "m0")
+  | .hello =>             -- instrumentation, guarded by `if (self)`
     match resolve s self .self with
     | .live o => .ok (say s s!"h {o}")
-    | _ => .ok (say (say s "!null") "h NIL")
+    | _ => .ok (say s "h0")
   | .capture v n => .ok { s with vals := upd s.vals v (evalTarget cfg s n) }
   | .copy v w => .ok { s with vals := upd s.vals v (s.vals w) }
   | .query src =>
@@ -410,7 +407,7 @@ def fanOut (cfg : Cfg) (s : State) (src : Src) (run : State → ObjId → Res) :
 def fieldSet (cfg : Cfg) (s : State) (src : Src) (x : Nat) : Res :=
   let setOne : State → ObjId → Res := fun st o => .ok { st with fld := upd st.fld o x }
   match evalSrc cfg s src with
-  | .nil => .ok (say s "!castnone")
+  | .nil => .ok (say s "!nil")
   | .obj none => .ok (say s "!null")
   | .obj (some o) => setOne { s with log := s.log ++ [.visited o] } o
   | .cont l =>
